@@ -59,6 +59,9 @@ fn is_ws(c: char) -> bool {
 struct P<'a> {
     s: &'a str,
     i: usize,
+    /// general entities declared in the DOCTYPE's internal subset: references to them are well-formed; they are
+    /// not expanded but kept as the opaque text "&name;" in the infoset
+    entities: Vec<String>,
 }
 
 impl<'a> P<'a> {
@@ -120,7 +123,7 @@ impl<'a> P<'a> {
     }
 
     /// Parse a reference after '&' has been seen (self.i at '&').
-    fn reference(&mut self) -> Result<char, XmlErr> {
+    fn reference(&mut self) -> Result<String, XmlErr> {
         debug_assert!(self.starts("&"));
         self.i += 1;
         if self.eat("#x") {
@@ -137,7 +140,7 @@ impl<'a> P<'a> {
             }
             let v = u32::from_str_radix(&self.s[start..self.i - 1], 16).unwrap_or(u32::MAX);
             return match char::from_u32(v) {
-                Some(c) if is_xml_char(c) => Ok(c),
+                Some(c) if is_xml_char(c) => Ok(c.to_string()),
                 _ => self.err("character reference to a non-Char"),
             };
         }
@@ -155,7 +158,7 @@ impl<'a> P<'a> {
             }
             let v = self.s[start..self.i - 1].parse::<u32>().unwrap_or(u32::MAX);
             return match char::from_u32(v) {
-                Some(c) if is_xml_char(c) => Ok(c),
+                Some(c) if is_xml_char(c) => Ok(c.to_string()),
                 _ => self.err("character reference to a non-Char"),
             };
         }
@@ -164,11 +167,12 @@ impl<'a> P<'a> {
             return self.err("entity reference without ';'");
         }
         match n.as_str() {
-            "amp" => Ok('&'),
-            "lt" => Ok('<'),
-            "gt" => Ok('>'),
-            "quot" => Ok('"'),
-            "apos" => Ok('\''),
+            "amp" => Ok("&".into()),
+            "lt" => Ok("<".into()),
+            "gt" => Ok(">".into()),
+            "quot" => Ok("\"".into()),
+            "apos" => Ok("'".into()),
+            _ if self.entities.iter().any(|e| e == &n) => Ok(format!("&{n};")),
             _ => self.err(format!("undefined entity '{n}'")),
         }
     }
@@ -188,7 +192,7 @@ impl<'a> P<'a> {
                     return Ok(out);
                 }
                 Some('<') => return self.err("'<' in attribute value"),
-                Some('&') => out.push(self.reference()?),
+                Some('&') => out.push_str(&self.reference()?),
                 Some(c) => {
                     if !is_xml_char(c) {
                         return self.err("non-Char in attribute value");
@@ -307,7 +311,14 @@ impl<'a> P<'a> {
                 Some('<') => return self.err("'<' in DOCTYPE outside internal subset"),
                 Some('>') if depth <= 0 => {
                     self.i += 1;
-                    return Ok(Ev::Doctype(self.s[start..self.i].to_string()));
+                    let text = self.s[start..self.i].to_string();
+                    for decl in text.split("<!ENTITY").skip(1) {
+                        let name: String = decl.trim_start().chars().take_while(|c| is_name_char(*c)).collect();
+                        if !name.is_empty() && !decl.trim_start().starts_with('%') {
+                            self.entities.push(name);
+                        }
+                    }
+                    return Ok(Ev::Doctype(text));
                 }
                 Some(c) => {
                     if !is_xml_char(c) {
@@ -441,7 +452,7 @@ impl<'a> P<'a> {
                 out.push(ev);
             } else if self.starts("&") {
                 let c = self.reference()?;
-                text.push(c);
+                text.push_str(&c);
             } else {
                 if self.starts("]]>") {
                     return self.err("']]>' in character data");
@@ -466,13 +477,13 @@ impl<'a> P<'a> {
 
 /// Parse a complete XML document (prolog, exactly one root element, trailing misc).
 pub fn parse_document(s: &str) -> Result<Vec<Ev>, XmlErr> {
-    P { s, i: 0 }.content(true)
+    P { s, i: 0, entities: Vec::new() }.content(true)
 }
 
 /// Parse well-formed *content*: any sequence of elements, character data, comments,
 /// PIs and CDATA sections with balanced tags (an XML declaration is allowed at byte 0).
 pub fn parse_content(s: &str) -> Result<Vec<Ev>, XmlErr> {
-    P { s, i: 0 }.content(false)
+    P { s, i: 0, entities: Vec::new() }.content(false)
 }
 
 // ---------------------------------------------------------------------------
